@@ -117,6 +117,34 @@ mod venc {
     use sl_verifiable_enc::rsa::RsaPrivateKey;
     use sl_verifiable_enc::VerifiableRsaEncryption;
 
+    /// byte strings whose total length is consistent with the four announced size words, for size words
+    /// around their legal values (content zero or random): these get past the length checks of from_bytes
+    fn consistent_headers(r: &mut ChaCha20Rng, repr: usize) -> Vec<(String, Vec<u8>)> {
+        let mut v = vec![];
+        for sp in [128usize, 129, 256] {
+            for g in [0usize, 1, repr - 1, repr, repr + 1, 64] {
+                for enc in [0usize, 1, 16, 128] {
+                    for sc in [0usize, 31, 32, 33] {
+                        let total = 40 + sp * (g + 2 * enc + sc);
+                        if total > 200_000 {
+                            continue;
+                        }
+                        let mut m = vec![0u8; total];
+                        if (sp + g + enc + sc) % 2 == 1 {
+                            r.fill_bytes(&mut m);
+                        }
+                        m[32..34].copy_from_slice(&(sp as u16).to_be_bytes());
+                        m[34..36].copy_from_slice(&(g as u16).to_be_bytes());
+                        m[36..38].copy_from_slice(&(enc as u16).to_be_bytes());
+                        m[38..40].copy_from_slice(&(sc as u16).to_be_bytes());
+                        v.push(("consistent-header".to_string(), m));
+                    }
+                }
+            }
+        }
+        v
+    }
+
     pub fn run(rec: &mut Rec, seed: u64, scale: usize) {
         use group::Group;
         let mut r = rng(seed, "c11-venc");
@@ -198,6 +226,7 @@ mod venc {
                     inputs.push(("consistent-many-slots".into(), m));
                 }
             }
+            inputs.extend(consistent_headers(&mut r, 33));
             for (kind, bytes) in inputs {
                 rec.case("venc.k256.from_bytes+verify+decrypt", &kind, &bytes, || {
                     match VerifiableRsaEncryption::<ProjectivePoint>::from_bytes(&bytes) {
@@ -226,6 +255,7 @@ mod venc {
                 m[32..34].copy_from_slice(&val.to_be_bytes());
                 inputs.push(("hdr-sp".into(), m));
             }
+            inputs.extend(consistent_headers(&mut r, 32));
             for (kind, bytes) in inputs {
                 rec.case("venc.ed25519.from_bytes+verify+decrypt", &kind, &bytes, || {
                     match VerifiableRsaEncryption::<EdwardsPoint>::from_bytes(&bytes) {
@@ -260,6 +290,18 @@ mod paillier {
         let _ = pk.mul(&c2, &m);
         let _ = pk.mul_vartime(&c2, &m);
         let _ = pk.message(&[0xffu8; 300]);
+        // byte strings around the width of N: all-zero, last byte set, all ones
+        for len in [0usize, 1, 2, 255, 256, 257, 258, 259, 511, 512, 513, 515] {
+            let mut b = vec![0u8; len];
+            let _ = pk.message(&b);
+            if len > 0 {
+                b[len - 1] = 1;
+                let _ = pk.message(&b);
+                b[0] = 0xff;
+                let _ = pk.message(&b);
+            }
+            let _ = pk.message(&vec![0xffu8; len]);
+        }
     }
 
     pub fn run(rec: &mut Rec, seed: u64, scale: usize) {
@@ -532,6 +574,45 @@ mod relay {
                 })
             });
             rec.case("relay.lock-usable-after", kind, bytes, || {
+                let _ = relay.messages();
+                let _c = relay.connect();
+                true
+            });
+        }
+        // multi-step histories: a waiter that disconnects before the publication, a waiter that never drains
+        // (more deliveries than its channel holds), a waiter dropped between two publications
+        for (kind, nask) in [("ask-drop-publish", 1usize), ("ask-many-then-publish", 150), ("ask-publish-ask", 2)] {
+            let relay = SimpleMessageRelay::new();
+            rec.case("relay.history", kind, kind.as_bytes(), || {
+                rt.block_on(async {
+                    let ids: Vec<MsgId> = (0..nask).map(|i| { let mut b = [0x11u8; 32]; b[0] = i as u8; b[1] = (i >> 8) as u8; MsgId::from(b) }).collect();
+                    {
+                        let mut a = relay.connect();
+                        for id in &ids {
+                            let _ = a.send(AskMsg::allocate(id, 10)).await;
+                        }
+                        if kind != "ask-many-then-publish" {
+                            drop(a);
+                            let mut p = relay.connect();
+                            for id in &ids {
+                                let _ = p.send(allocate_message(id, 10, 0, &[0xaa])).await;
+                            }
+                        } else {
+                            // the asker stays connected but never reads
+                            let mut p = relay.connect();
+                            for id in &ids {
+                                let _ = p.send(allocate_message(id, 10, 0, &[0xaa])).await;
+                            }
+                            tokio::task::yield_now().await;
+                            drop(a);
+                        }
+                    }
+                    for _ in 0..4 { tokio::task::yield_now().await; }
+                    relay.send(allocate_message(&ids[0], 10, 0, &[0xbb]));
+                    true
+                })
+            });
+            rec.case("relay.lock-usable-after", kind, kind.as_bytes(), || {
                 let _ = relay.messages();
                 let _c = relay.connect();
                 true
